@@ -51,6 +51,10 @@ class Model:
     def __init__(self, scenario):
         self.scenario = scenario
         self.now = scenario.get("initial_time", 0)
+        if scenario.get("enter_late") is not None:
+            # embedded environment entered when the native clock (started at min(0, initial
+            # time)) has passed its initial time: the environment lives on the native clock
+            self.now = max(self.now, min(0, self.now) + scenario["enter_late"])
         self.queue = []
         self.counter = itertools.count()
         self.events = {name: Ev("ev:" + name) for name in scenario.get("events", ())}
